@@ -194,5 +194,15 @@ def gpg_sign(seed: bytes, data: bytes, hdr: bytes, framing: str = "rfc", algo: s
 DEFAULT_HDR = bytes.fromhex("04001608001d162104f075dd2f6f4cb3bd76134bbb81b6ca16ef9cd58905025f0bf546")
 
 
+# Pairs of genuine key pairs whose PUBLIC values coincide in 32 bits (found once by a birthday search over sha256("cctverif-related-<i>") seeds):
+# distinct keys are distinct however much of their spelling they share - nothing may identify a key by a prefix, a suffix or a "short id".
+RELATED_SEED_INDEX = {"suffix": (38011, 122440), "prefix": (42861, 140010)}
+
+
+def related_seeds(kind: str):
+    a, b = RELATED_SEED_INDEX[kind]
+    return hashlib.sha256(b"cctverif-related-%d" % a).digest(), hashlib.sha256(b"cctverif-related-%d" % b).digest()
+
+
 def seed_for(i: int, run_seed: int = 0) -> bytes:
     return hashlib.sha256(b"cctverif-key-%d-%d" % (i, run_seed)).digest()
